@@ -12,7 +12,11 @@ Binding:
   `_solve_hk` / `_solve_hk_cy` (wrapped, never replaced), evaluated at the returned length and just below /
   above it; TLC decides "solves the equation" (root or crossing), monotonicity, cumulative volume = liquid
   volume of the adsorbed amount, distribution = dV/dW.
-  Not decided: that the cylinder / sphere / Rege-Yang potentials are the published ones (DESIGN section 8).
+* published equations held by the spec and compared (DecFloat, 1e-4) with the library's potential at every reported
+  width: HK slit, Rege-Yang slit, Rege-Yang sphere.  Not decided: HK cylinder/sphere and Rege-Yang cylinder (DESIGN section 8).
+* points are presented increasing / with neighbours swapped / reversed (every width must solve the equation for ITS
+  pressure whatever the order), and histories of psd_microporous(adsorbate_model=None) over adsorbates x temperatures
+  are judged call by call like first calls.
 """
 import math
 import os
@@ -118,7 +122,7 @@ def main(tier, seed):
     # ---- 1. TLC: arithmetic lemmas of the slit round trip, exhaustively over all chosen-width grids
     res = tlc.must_pass("HKMC", timeout=600)
     run.set(states=res["distinct"], transitions=res["states_generated"], tlc_depth=res["depth"],
-            tlc_invariants=["FormsAgree", "Increasing", "Physical"])
+            tlc_invariants=["FormsAgree", "Increasing", "Physical", "PermOk", "RYAttractive"])
 
     # ---- 2. scenario space from the spec
     space = tlc.oracle("HKOracle", [{"k": "scen"}], timeout=300)[0]
@@ -150,7 +154,7 @@ def main(tier, seed):
 
     # ---- 3. prep: loadings, coverages, chosen slit widths (spec)
     live = [s for s in chosen if s["h"] in adsorbents]
-    preps = tlc.oracle("HKOracle", [{"k": "prep", "fam": s["fam"], "npts": s["npts"], "a": adsorbates[s["a"]]["enc"], "h": adsorbents[s["h"]]["enc"]}
+    preps = tlc.oracle("HKOracle", [{"k": "prep", "fam": s["fam"], "npts": s["npts"], "perm": s["perm"], "a": adsorbates[s["a"]]["enc"], "h": adsorbents[s["h"]]["enc"]}
                                     for s in live], timeout=600)
 
     # ---- 4. slit HK / HK-CY: pressures from the published equation (spec)
@@ -159,7 +163,7 @@ def main(tier, seed):
     for i in slit_idx:
         s, p = live[i], preps[i]
         th = [dec_dec(x) for x in p["theta"]]
-        slit_q.append({"k": "slit", "L": p["L"], "n": p["n"], "a": adsorbates[s["a"]]["enc"], "h": adsorbents[s["h"]]["enc"], "T": s["T"],
+        slit_q.append({"k": "slit", "L": [p["L"][j - 1] for j in p["pi"]], "n": p["n"], "a": adsorbates[s["a"]]["enc"], "h": adsorbents[s["h"]]["enc"], "T": s["T"],
                        "cy": s["model"].endswith("CY"), "ln1m": [enc(math.log1p(-x)) for x in th]})
     slit_ans = dict(zip(slit_idx, tlc.oracle("HKOracle", slit_q, timeout=900))) if slit_q else {}
 
@@ -183,7 +187,7 @@ def main(tier, seed):
             try:
                 if i in slit_ans:
                     lnp = numpy.array([dec_dec(x) for x in slit_ans[i]["lnp"]])
-                    chosenW = p["W"]
+                    chosenW = [p["W"][j - 1] for j in p["pi"]]
                 else:
                     # the library's own potential -> pressures for which a solution exists in the property's width range
                     cap.fake = True
@@ -200,14 +204,22 @@ def main(tier, seed):
                     grid = l0 + (lmax - l0) * numpy.arange(1, N + 1) / (N + 1)
                     phi = numpy.sort(numpy.array([f(x) for x in grid]))
                     phi = phi + 1e-9 * numpy.arange(N)
+                    phi = phi[numpy.array(p["pi"]) - 1]       # order of presentation chosen by the spec
                     lnp = phi - corr
                 cap.fake = False
                 pressure = numpy.exp(lnp)
-                if not (numpy.all(numpy.isfinite(pressure)) and numpy.all(pressure > 0) and numpy.all(numpy.diff(pressure) > 0)):
-                    run.add("scenarios_skipped_no_increasing_pressures")
+                if not (numpy.all(numpy.isfinite(pressure)) and numpy.all(pressure > 0) and len(set(pressure.tolist())) == N):
+                    run.add("scenarios_skipped_degenerate_pressures")
                     continue
+                increasing = bool(numpy.all(numpy.diff(pressure) > 0))
+                target = lnp + corr
+                if increasing and numpy.any(numpy.diff(target) < 0):
+                    run.add("runs_with_increasing_pressure_and_decreasing_solution")      # Cheng-Yang near saturation
+                if not increasing:
+                    run.add("runs_with_non_monotone_pressures")
                 entry = "raw"
-                use_api = bool(numpy.all(pressure < 0.999)) and pick(s["id"] + 5, seed, 4)
+                # the isotherm entry point needs an adsorption branch (increasing pressures)
+                use_api = increasing and bool(numpy.all(pressure < 0.999)) and pick(s["id"] + 5, seed, 4)
                 if use_api:
                     entry = "api"
                     iso = pygaps.PointIsotherm(pressure=pressure, loading=n, material="hk-sample", adsorbate="N2", temperature=T,
@@ -241,12 +253,66 @@ def main(tier, seed):
             if not all(math.isfinite(v) for k in obs for v in obs[k]):
                 run.violation({**sigbase, "clause": "equation", "observed": "library potential not finite at the reported width"}, {"scenario": s})
                 continue
-            q = {"k": "judge", "geo": s["geo"], "cy": cy, "a": A["enc"], "h": H["enc"], "lnp": [enc(x) for x in lnp], "n": p["n"],
+            q = {"k": "judge", "family": s["model"][:2], "T": s["T"], "geo": s["geo"], "cy": cy, "a": A["enc"], "h": H["enc"], "lnp": [enc(x) for x in lnp], "n": p["n"],
                  "ln1m": [enc(x) for x in ln1m], "L": [enc(x) for x in L], "f0": [enc(x) for x in obs["f0"]], "fm": [enc(x) for x in obs["fm"]],
                  "fp": [enc(x) for x in obs["fp"]], "gm": [enc(x) for x in obs["gm"]], "gp": [enc(x) for x in obs["gp"]], "w": [enc(x) for x in w], "dist": [enc(x) for x in dist], "cum": [enc(x) for x in cum],
                  "chosen": chosenW}
             judge_q.append(q)
             meta.append((s, sigbase, entry, H["cls"], L, [float(x) for x in pressure], [float(x) for x in w]))
+
+        # ---- 5b. histories through psd_microporous(adsorbate_model=None) (spec/HK.tla Histories): the adsorbate parameters are
+        # looked up by the library; every call is judged like a first call with the parameters of ITS adsorbate at ITS temperature
+        # (liquid density and molar mass straight from CoolProp - an independent reference)
+        from ..units_common import coolprop_direct
+        # (registered in the session list and passed by name: the isotherm constructor cannot take an Adsorbate object)
+        argon = pygaps.Adsorbate("c17-argon", store=True, backend_name="ARGON", molecular_diameter=0.336, polarizability=1.63e-3,
+                                 magnetic_susceptibility=3.25e-8, surface_density=8.52e18)
+        ads_obj = {"N2": pygaps.Adsorbate.find("N2"), "Ar": argon}
+        Hc = adsorbents["CarbonHK"]
+        cfgs = []
+        for c in space["hist_configs"]:
+            ao, T = ads_obj[c["ads"]], dec_dec(c["T"])
+            direct = coolprop_direct(ao, T)
+            if direct is None:
+                raise MachineryError("CoolProp reference not available for the history scenarios")
+            aenc = {"d": enc(ao.get_prop("molecular_diameter")), "alpha": enc(ao.get_prop("polarizability")), "chi": enc(ao.get_prop("magnetic_susceptibility")),
+                    "ns": enc(ao.get_prop("surface_density")), "rho": enc(direct["rhoLmass"]), "M": enc(direct["M"])}
+            cfgs.append({"ads": c["ads"], "obj": ao, "T": T, "Tenc": c["T"], "a": aenc})
+        hp = tlc.oracle("HKOracle", [{"k": "prep", "fam": "lin", "npts": 10, "perm": "id", "a": c["a"], "h": Hc["enc"]} for c in cfgs], timeout=300)
+        hs = tlc.oracle("HKOracle", [{"k": "slit", "L": pr["L"], "n": pr["n"], "a": c["a"], "h": Hc["enc"], "T": c["Tenc"], "cy": False,
+                                      "ln1m": [enc(math.log1p(-dec_dec(x))) for x in pr["theta"]]} for c, pr in zip(cfgs, hp)], timeout=300)
+        nhist = 0
+        for hi_, hist in enumerate(space["histories"]):
+            if not thorough and not pick(hi_, seed, 2):
+                continue
+            nhist += 1
+            for step, ci in enumerate(hist):
+                c, pr, sl = cfgs[ci - 1], hp[ci - 1], hs[ci - 1]
+                lnp = numpy.array([dec_dec(x) for x in sl["lnp"]])
+                pressure = numpy.exp(lnp)
+                n = numpy.array([dec_dec(x) for x in pr["n"]])
+                sigbase = {"site": "psd_microporous", "model": "HK", "geometry": "slit", "adsorbate_model": "database"}
+                s_ = {"id": 100000 + 10 * hi_ + step, "history": list(hist), "step": step + 1, "adsorbate": c["ads"], "T": c["T"]}
+                try:
+                    iso = pygaps.PointIsotherm(pressure=pressure, loading=n, material="hk-sample", adsorbate=c["obj"].name, temperature=c["T"],
+                                               pressure_mode="relative", loading_basis="molar", loading_unit="mmol", material_basis="mass", material_unit="g")
+                    out = pm.psd_microporous(iso, psd_model="HK", pore_geometry="slit", material_model="Carbon(HK)", adsorbate_model=None, p_limits=(None, None))
+                except Exception as e:
+                    run.violation({**sigbase, "clause": "returns", "observed": "exception:" + exc_class(e)}, {"scenario": s_, "message": str(e)[:300]})
+                    continue
+                L, f, bound = cap.last.get("L"), cap.last["f"], cap.last["bound"]
+                ob = {k: [] for k in ("f0", "fm", "fp", "gm", "gp")}
+                for x in L:
+                    ob["f0"].append(enc(f(x)))
+                    ob["fm"].append(enc(f(max(x * (1 - EPS), bound * (1 + 1e-12)))))
+                    ob["fp"].append(enc(f(x * (1 + EPS))))
+                    ob["gm"].append(enc(f(max(x * (1 - EPS / 10), bound * (1 + 1e-12)))))
+                    ob["gp"].append(enc(f(x * (1 + EPS / 10))))
+                judge_q.append({"k": "judge", "family": "HK", "T": c["Tenc"], "geo": "slit", "cy": False, "a": c["a"], "h": Hc["enc"], "lnp": [enc(x) for x in lnp],
+                                "n": pr["n"], "ln1m": [enc(0.0) for _ in lnp], "L": [enc(x) for x in L], **ob, "w": [enc(x) for x in out["pore_widths"]],
+                                "dist": [enc(x) for x in out["pore_distribution"]], "cum": [enc(x) for x in out["pore_volume_cumulative"]], "chosen": pr["W"]})
+                meta.append((s_, sigbase, "api-history", "Carbon(HK)", L, [float(x) for x in pressure], [float(x) for x in out["pore_widths"]]))
+        run.set(adsorbate_histories=nhist)
 
     # ---- 6. TLC judges
     answers = tlc.oracle("HKOracle", judge_q + [a for _, a in audit], timeout=1500, chunk=400)
@@ -256,6 +322,7 @@ def main(tier, seed):
             run.violation({"site": "models_hk", "adsorbent": ads_tab[hid]["name"], "clause": "parameter table", "observed": "differs from Horvath-Kawazoe 1983",
                            "fields": ",".join(sorted(ans["bad"]))}, {})
     ncls = {}
+    npub = {}
     for (s, sigbase, entry, hcls, L, pressure, w), ans in zip(meta, answers):
         key = (s["id"], entry)
         run.count(key, n=len(L))
@@ -270,6 +337,9 @@ def main(tier, seed):
             run.violation({**sigbase, "clause": "equation",
                            "observed": "local extremum of the potential, not a solution" if c == "localext" else "reported width does not solve the potential equation"},
                           detail)
+        if ans["pub"]:
+            run.violation({**sigbase, "clause": "published", "observed": "the library's potential at the reported width is not the published " + ans["published"] + " equation"}, detail)
+        npub[ans["published"]] = npub.get(ans["published"], 0) + len(L)
         if ans["rt"]:
             run.violation({**sigbase, "clause": "roundtrip", "observed": "width differs from the one the published slit equation was evaluated for"}, detail)
         if ans["short"]:
@@ -289,15 +359,17 @@ def main(tier, seed):
         s, _, entry, _, L, pressure, w = meta[0]
         run.sample({"scenario": s, "entry": entry, "pressure": pressure[:4], "solver_lengths": L[:4], "reported_widths": w[:3]})
     run.add("traces_validated_against_impl", len(judge_q))
-    run.set(equation_classes=ncls, scenarios_run=len(judge_q), through_psd_microporous=sum(1 for m in meta if m[2] == "api"), scenarios_in_spec=len(scen), exhaustive=bool(thorough),
+    run.set(points_compared_with_published_equation=npub, equation_classes=ncls, scenarios_run=len(judge_q), through_psd_microporous=sum(1 for m in meta if m[2] == "api"), scenarios_in_spec=len(scen), exhaustive=bool(thorough),
             slit_roundtrips=sum(1 for q in judge_q if q["chosen"]),
             rule="scenario = model(4) x geometry(3) x adsorbent(5: Carbon(HK), 2 oxide-ion sets by name, 2 user dictionaries) x adsorbate(3 dictionaries) x "
                  "temperature(6: 70..300 K), each with an increasing loading family (3) of 10/20/40 points, enumerated by spec/HK.tla; "
                  + ("thorough: all 1080" if thorough else "quick: seed-chosen slice with every model x geometry")
                  + "; widths between the minimum of the potential / geometric minimum and 3 nm; pressures = published slit equation evaluated by TLC (HK slit) or the "
                    "library's own potential at the chosen lengths (others); evaluation = one pressure point; distinct = (scenario id, raw function | psd_microporous); all non-trivial")
-    run.assume("fidelity of the cylinder, sphere, Cheng-Yang and Rege-Yang potentials to the literature is NOT decided: for them the check is that the reported width "
-               "solves (or brackets a crossing of) the library's own potential, plus the relational clauses")
+    run.assume("published equations held by the specification and compared with the library's potential at every reported width (1e-4): HK slit (Horvath-Kawazoe 1983), "
+               "Rege-Yang slit and sphere (Rege & Yang 2000; the slit one-layer term is the 10-4 potential summed over both walls, the library docstring has its signs wrong). "
+               "NOT decided: fidelity of the HK cylinder/sphere (Saito-Foley, Cheng-Yang) and Rege-Yang cylinder potentials (infinite series, arcsine) - for them only "
+               "'the reported width solves (or brackets a crossing of) the library's own potential' plus the relational clauses")
     run.assume("Cheng-Yang coverage is n/(1.01*max n) (the library's saturation convention); 'non-decreasing in pressure' is judged against the right-hand side "
                "ln p + CY term of the method's equation")
     run.assume("CODATA 2018 constants, (2/5)^(1/6) = 0.858374219; Carbon(HK) parameters from Horvath & Kawazoe 1983; oxide-ion parameter sets are taken from the library as input data")
